@@ -499,7 +499,16 @@ func (e *Engine) selectField(env *SpecEnv, x Val, name string) Val {
 			u, _ := isStruct(st)
 			hn, hs := e.fieldHeapName(st, u, i)
 			ft := u.Field(i).Type()
-			cur = Val{T: sel(e.heapIn(env.st, hn, hs), cur.T), S: e.sortOf(ft), GoT: ft}
+			t0 := sel(e.heapIn(env.st, hn, hs), cur.T)
+			if !env.inTrigger {
+				// the pointer may be the address of a struct field of the function under verification
+				for _, c := range e.interiorCands(st) {
+					inner, _ := e.applyPath(sel(e.heapIn(env.st, c.heap, c.sort), "("+c.owner+" "+cur.T+")"), c.baseT, c.path)
+					srt := e.structSort(st, u)
+					t0 = ite("(= (pkind "+cur.T+") "+fmt.Sprint(c.id)+")", "("+e.fieldSel(srt, u, i)+" "+inner+")", t0)
+				}
+			}
+			cur = Val{T: t0, S: e.sortOf(ft), GoT: ft}
 			continue
 		}
 		u, ok := isStruct(t)
